@@ -200,6 +200,13 @@ M['S20_single_lookup_regresses_kf2'] = [(MOD, '''                    if utc == e
                         early
                     } else {''')]
 
+M['S21_table_capped_at_64_entries'] = [(LSF, '''                    me.data.push(LeapSecond {''', '''                    if me.data.len() == 64 {
+                        // more leap seconds than seconds in a minute: not a leap second file
+                        break;
+                    }
+                    me.data.push(LeapSecond {''')]
+M['S22_timestamp_through_u32'] = [(LSF, '''                        timestamp_tai_s: (timestamp_tai_s as f64),''', '''                        timestamp_tai_s: (timestamp_tai_s as u32 as f64), // NTP timestamps are 32 bit''')]
+
 # ---- refactors: each preserves the clause; the check must stay silent ---------------------
 R = {}
 R['R1_bufreader_linewise'] = [(LSF, READ_BLOCK, '''        use std::io::BufRead;
